@@ -517,7 +517,10 @@ impl Walrus {
                     // Decode metadata to get read_size
                     let mut aligned = AlignedVec::with_capacity(meta_len);
                     aligned.extend_from_slice(&meta_buf[2..2 + meta_len]);
-                    let archived = unsafe { rkyv::archived_root::<Metadata>(&aligned[..]) };
+                    // header bytes come from disk: validate, never trust
+                    let Ok(archived) = rkyv::check_archived_root::<Metadata>(&aligned[..]) else {
+                        break;
+                    };
                     let meta: Metadata = match archived.deserialize(&mut rkyv::Infallible) {
                         Ok(m) => m,
                         Err(_) => {
@@ -719,10 +722,12 @@ impl Walrus {
                     if meta_len > 0 && meta_len <= PREFIX_META_SIZE - 2 {
                         let mut aligned_peek_meta = AlignedVec::with_capacity(meta_len);
                         aligned_peek_meta.extend_from_slice(&meta_buf[2..2 + meta_len]);
-                        let archived_peek_meta =
-                            unsafe { rkyv::archived_root::<Metadata>(&aligned_peek_meta[..]) };
-                        let meta_res: Result<Metadata, _> =
-                            archived_peek_meta.deserialize(&mut rkyv::Infallible);
+                        let meta_res: Result<Metadata, ()> =
+                            rkyv::check_archived_root::<Metadata>(&aligned_peek_meta[..])
+                                .map_err(|_| ())
+                                .and_then(|a| {
+                                    a.deserialize(&mut rkyv::Infallible).map_err(|_| ())
+                                });
                         match meta_res {
                             Ok(meta) => {
                                 let size1 = meta.read_size;
@@ -745,16 +750,18 @@ impl Walrus {
                                             let mut aligned2 = AlignedVec::with_capacity(meta_len2);
                                             aligned2
                                                 .extend_from_slice(&meta_buf2[2..2 + meta_len2]);
-                                            let archived2 = unsafe {
-                                                rkyv::archived_root::<Metadata>(&aligned2[..])
-                                            };
-                                            let meta2_res: Result<Metadata, _> =
-                                                archived2.deserialize(&mut rkyv::Infallible);
-                                            let meta2 = meta2_res
-                                                .expect("infallible metadata deserialize");
-                                            let size2 = meta2.read_size;
-                                            let required2 = (PREFIX_META_SIZE + size2) as u64;
-                                            final_required = required1 + required2;
+                                            // a corrupt second header just ends the peek
+                                            if let Ok(archived2) =
+                                                rkyv::check_archived_root::<Metadata>(&aligned2[..])
+                                            {
+                                                let meta2_res: Result<Metadata, _> =
+                                                    archived2.deserialize(&mut rkyv::Infallible);
+                                                let meta2 = meta2_res
+                                                    .expect("infallible metadata deserialize");
+                                                let size2 = meta2.read_size;
+                                                let required2 = (PREFIX_META_SIZE + size2) as u64;
+                                                final_required = required1 + required2;
+                                            }
                                         }
                                     }
                                 }
@@ -825,7 +832,10 @@ impl Walrus {
 
                         let mut aligned = AlignedVec::with_capacity(meta_len);
                         aligned.extend_from_slice(&meta_buf[2..2 + meta_len]);
-                        let archived = unsafe { rkyv::archived_root::<Metadata>(&aligned[..]) };
+                        let Ok(archived) = rkyv::check_archived_root::<Metadata>(&aligned[..])
+                        else {
+                            break;
+                        };
                         let meta: Metadata = match archived.deserialize(&mut rkyv::Infallible) {
                             Ok(m) => m,
                             Err(_) => break,
@@ -1032,7 +1042,9 @@ impl Walrus {
                 let mut aligned = AlignedVec::with_capacity(meta_len);
                 aligned.extend_from_slice(&buffer[buf_offset + 2..buf_offset + 2 + meta_len]);
 
-                let archived = unsafe { rkyv::archived_root::<Metadata>(&aligned[..]) };
+                let Ok(archived) = rkyv::check_archived_root::<Metadata>(&aligned[..]) else {
+                    break; // Corrupt header - stop
+                };
                 let meta: Metadata = match archived.deserialize(&mut rkyv::Infallible) {
                     Ok(m) => m,
                     Err(_) => {
